@@ -269,9 +269,14 @@ static void would_block(const char *op, int fd)
 }
 
 static int sigpipe_ignored;
-/* EPIPE comes with a SIGPIPE whose default action terminates the process */
+static void (*sigpipe_handler)(int);
+/* EPIPE comes with a SIGPIPE: the default action terminates the process, a handler the daemon installed runs now */
 static void broken_pipe(int fd)
 {
+	if (sigpipe_handler) {
+		sigpipe_handler(SIGPIPE);
+		return;
+	}
 	if (!sigpipe_ignored) hygiene("writev", fd, "SIGPIPE is not ignored: this write would kill the daemon");
 }
 
@@ -1006,7 +1011,8 @@ sighandler_t __real_signal(int signum, sighandler_t handler);
 sighandler_t __wrap_signal(int signum, sighandler_t handler)
 {
 	if (signum == SIGPIPE) {
-		sigpipe_ignored = handler != SIG_DFL;
+		sigpipe_ignored = handler == SIG_IGN;
+		sigpipe_handler = (handler == SIG_IGN || handler == SIG_DFL) ? NULL : handler;
 		return SIG_DFL;
 	}
 	if (signum == SIGTERM) {
